@@ -157,6 +157,75 @@ Definition pstep_lenb (p : pstep) : bool :=
   | _ => false
   end.
 
+(* [aligned] is the class string [cls] with gap classes inserted (what an aligner returns) *)
+Definition aligned_ofb (cls aligned : list token) : bool :=
+  toks_eqb (filter (fun c => negb (is_gap_class c)) aligned) cls.
+
+(* the whole chain in one case, every stage fed with the IMPLEMENTATION's own previous output:
+   string -> ipa2tokens -> tokens2class (shipped model) -> gaps inserted by the harness ->
+   class2tokens, and prosodic_string / prosodic_weights of the tokens *)
+Record pipe := mk_pipe {
+  pp_ks : kwstrings; pp_flags : ipa_flags; pp_s : list char;
+  pp_tbl : list (token * token); pp_art : list (token * token);
+  pp_stress : list char; pp_diacs : list char; pp_cldf : bool; pp_gap : token;
+  pp_toks : res (list token);            (* ipa2tokens(s) *)
+  pp_single : list (res token);          (* token2class of each token *)
+  pp_cls : res (list token);             (* tokens2class(tokens) *)
+  pp_aligned : list token;               (* cls with gaps inserted *)
+  pp_out : list token;                   (* class2tokens(tokens, aligned) *)
+  pp_pro : res (list Z);                 (* prosodic_string(tokens) *)
+  pp_weights : res (list Q) }.
+
+Definition pipe_corr (p : pipe) : bool :=
+  let k := kw_of_run (pp_ks p) (pp_flags p) in
+  let conv := assoc_find (pp_tbl p) in
+  let st := memc (pp_stress p) in
+  let di := memc (pp_diacs p) in
+  res_eqb toks_eqb (ipa2tokens k (pp_s p)) (pp_toks p)
+  && match pp_toks p with
+     | Ok toks =>
+       res_eqb toks_eqb (tokens2class conv st di (pp_cldf p) toks) (pp_cls p)
+       && list_eqb (res_eqb tok_eqb) (map (token2class conv st di (pp_cldf p)) toks) (pp_single p)
+       && match pp_cls p with
+          | Ok _ => toks_eqb (class2tokens (pp_gap p) toks (pp_aligned p)) (pp_out p)
+          | _ => true
+          end
+       && res_eqb zs_eqb (prosodic_string_tokens (assoc_find (pp_art p)) st di false OTrue toks) (pp_pro p)
+       && match pp_pro p with
+          | Ok ps => res_eqb qs_eqb (prosodic_weights [] ps) (pp_weights p)
+          | _ => true
+          end
+     | _ => true
+     end.
+
+Definition pipe_ipab (p : pipe) : bool :=
+  ipa_okb (kw_of_run (pp_ks p) (pp_flags p)) (pp_s p) (pp_toks p).
+
+Definition pipe_t2cb (p : pipe) : bool :=
+  match pp_toks p with
+  | Ok toks => t2c_okb (pp_tbl p) toks (pp_single p) (pp_cls p)
+  | _ => true
+  end.
+
+Definition pipe_prob (p : pipe) : bool :=
+  match pp_toks p, pp_pro p with
+  | Ok toks, Ok ps => len_okb (pp_pro p) toks && len_okb (pp_weights p) toks
+  | Ok toks, ValueErr => true          (* only unknown sounds; judged by the prostok stream *)
+  | Ok toks, _ => false
+  | _, _ => true
+  end.
+
+(* the way back: with an aligned class string of the tokens' own classes the output has the
+   length and gap pattern of the alignment and de-gaps to the tokens *)
+Definition pipe_backb (p : pipe) : bool :=
+  match pp_toks p, pp_cls p with
+  | Ok toks, Ok cls =>
+    negb (aligned_ofb cls (pp_aligned p)) || negb (Nat.eqb (length cls) (length toks))
+    || existsb (tok_eqb (pp_gap p)) toks
+    || (toks_eqb (degap (pp_gap p) (pp_out p)) toks && pattern_okb (pp_gap p) (pp_out p) (pp_aligned p))
+  | _, _ => true
+  end.
+
 Inductive seq_case :=
 | CIpa (ks : kwstrings) (s : list char) (runs : list ipa_run)
 | CT2C (tbl : list (token * token)) (stress diacs : list char) (cldf : bool) (toks : list token)
@@ -166,6 +235,7 @@ Inductive seq_case :=
 | CProsTok (art : list (token * token)) (stress diacs : list char) (toks : list token)
            (cls : res (list token)) (son : res (list Z)) (out : res (list Z)) (toks_after : list token)
 | CProsSeq (art : list (token * token)) (stress diacs : list char) (steps : list pstep)
+| CPipe (p : pipe)
 | CC2T (gap : token) (tokens classes : list token) (out : list token)
        (pre suf : list token) (outl : list token)
        (out2 outl2 : list token) (tokens_after classes_after : list token).
@@ -213,6 +283,9 @@ Definition seq_case_code (c : seq_case) : nat :=
     bit 0 (forallb (pstep_corr conv (memc stress) (memc diacs)) steps)
     + bit 3 (forallb pstep_lenb steps)
     + bit 5 (forallb (fun p => unchangedb (ps_toks p) (ps_after p)) steps)
+  | CPipe p =>
+    bit 0 (pipe_corr p) + bit 1 (pipe_ipab p) + bit 2 (pipe_t2cb p) + bit 3 (pipe_prob p)
+    + bit 4 (pipe_backb p)
   | CC2T gap tokens classes out pre suf outl out2 outl2 tokens_after classes_after =>
     bit 0 (toks_eqb (class2tokens gap tokens classes) out
            && toks_eqb (class2tokens_local gap tokens pre classes suf) outl
